@@ -266,7 +266,8 @@ def argmaxFirst (va : Vec α n) : Option (Fin n) :=
 /-- `L1MinusL2Norm.prox` for real `v` (alpha = lam):
     * `vamx > alpha` : shrink, then rescale by `(‖u‖ + alpha·beta)/‖u‖`
     * `(1-beta)·alpha ≤ vamx ≤ alpha` : one-sparse vector at the first arg-max
-    * `vamx < (1-beta)·alpha` or `vamx = 0` : zero -/
+    * `vamx < (1-beta)·alpha` : zero
+    * `vamx = 0` (i.e. `v = 0`, code after fix cda1690) : `max(beta-1, 0)·alpha` in entry 0, zero elsewhere -/
 def l1l2Prox (beta : α) (v : Vec α n) (lam : α) : Vec α n :=
   let va : Vec α n := fun i => HasAbs.abs (v i)
   let vamx := vmax va
@@ -280,7 +281,7 @@ def l1l2Prox (beta : α) (v : Vec α n) (lam : α) : Vec α n :=
       match argmaxFirst va with
       | none => fun _ => 0
       | some k => fun i => if i = k then (va k + (beta - 1) * lam) * sign (v k) else 0
-  else fun _ => 0
+  else fun i => if i.val = 0 then maxP (beta - 1) 0 * lam else 0
 
 /-- `L1MinusL2Norm.prox` for complex `v`: the code works with `va = |v|` and `vs = exp(1j*angle v)` only, so the
     result is the real map applied to the moduli, multiplied entry-wise by the phases -/
